@@ -714,14 +714,11 @@ def run(ctx):
     vals += ["".join(vrng.choice(VALUE_ALPHA + ["b", ";", ",", "=", "~", "\x7e", "\xff", "!"]) for _ in range(vrng.randrange(4, 9)))
              for _ in range(ctx.scale(150, 1500))]
     vals = list(dict.fromkeys(vals))
-    cases = [(cstr(v), impl_quote(v), {"kind": "quote", "value": v}) for v in vals]
-    bad = ctx.corr("quote", IMPORTS, "obs_quote", cases, in_type="str")
-    for i in bad[:10]:
-        if not check_case(ctx, cases[i][2], "quote"):
-            ctx.broken.append("correspondence quote: model and implementation disagree on %r (impl %r)" % (vals[i], cases[i][1]))
+    quote_cases = [(cstr(v), impl_quote(v), {"kind": "quote", "value": v}) for v in vals]
 
     import concurrent.futures as cf
-    jobs = []   # (name, fn, cases, in_type): generated serially (deterministic), evaluated by Coq concurrently
+    # (name, fn, cases, in_type): generated serially (deterministic), evaluated by Coq concurrently
+    jobs = [("quote", "obs_quote", quote_cases, "str")]
     for family in FAMS:
         rng = ctx.sub_rng("corr-" + family)
         obs = "obs_accept" if family == "accept" else "obs_simple"
@@ -757,8 +754,31 @@ def run(ctx):
         name, fn, cases, ty = job
         return name, cases, ctx.corr(name, IMPORTS, fn, cases, in_type=ty, shard=80, shard_bytes=60000)
 
-    with cf.ThreadPoolExecutor(6) as ex:
-        results = list(ex.map(one, jobs))
+    def evaluate(todo):
+        """run the jobs; returns (results, names of the jobs Coq could not evaluate)"""
+        n0 = len(ctx.broken)
+        with cf.ThreadPoolExecutor(6) as ex:
+            res = list(ex.map(one, todo))
+        failed = [m.group(1) for b in ctx.broken[n0:] for m in [re.match(r"correspondence (\S+) could not be evaluated", b)] if m]
+        return res, failed, n0
+
+    results, failed, n0 = evaluate(jobs)
+    if failed and any("inconsistent assumptions" in b for b in ctx.broken[n0:]):
+        # another check rebuilt a shared library (Gen/C03_regexes.vo) while the case files were being compiled:
+        # bring the closure up to date again and evaluate the affected jobs once more
+        import fcntl
+        import os
+        del ctx.broken[n0:]
+        with open(os.path.join(fw.BUILD, "coq.lock"), "w") as lk:
+            fcntl.flock(lk, fcntl.LOCK_EX)
+            ok, _log = fw.coq_make(["Props/C19.vo"], 1500, tag=ctx.prop)
+        if not ok:
+            ctx.broken.append("rebuild after a concurrent change of a shared library failed")
+        for name in failed:
+            ctx.corr_stats.pop(name, None)
+        ctx.note("correspondence jobs re-evaluated after a concurrent rebuild of a shared library: %s" % ", ".join(failed))
+        again, _f, _n = evaluate([j for j in jobs if j[0] in failed])
+        results = [r for r in results if r[0] not in failed] + again
     for name, cases, bad in results:
         for i in bad[:10]:
             if not check_case(ctx, cases[i][2], name):
